@@ -847,13 +847,13 @@ func RedeemGuard(p *core.Prog, r *core.Report) {
 				if !cond.Sense {
 					continue
 				}
-				if cp, ok := core.StablePath(cond.Value); ok && hasPath && cp == xp+".wantsRedeemOnMerge" {
+				if cp, ok := core.StablePath(cond.Value); ok && hasPath && cp == xp+"."+pooledMark {
 					r.OK(rule, key, p.Pos(i.Pos()), "released only when marked as pooled (wantsRedeemOnMerge)")
 					return
 				}
 				if ld, ok := cond.Value.(*ssa.UnOp); ok {
 					if fa, ok := ld.X.(*ssa.FieldAddr); ok {
-						if _, name, _ := core.FieldOf(fa); name == "wantsRedeemOnMerge" && ra.root(fa.X) == ra.root(x) {
+						if _, name, _ := core.FieldOf(fa); name == pooledMark && ra.root(fa.X) == ra.root(x) {
 							r.OK(rule, key, p.Pos(i.Pos()), "released only when marked as pooled (wantsRedeemOnMerge)")
 							return
 						}
@@ -902,7 +902,7 @@ func RedeemGuard(p *core.Prog, r *core.Report) {
 			}
 			for _, cd := range core.ControlConds(c.Block()) {
 				pth, ok := core.StablePath(cd.Value)
-				if !ok || !strings.HasSuffix(pth, ".recycleResult") {
+				if !ok || !strings.HasSuffix(pth, recycleResultSuffix) {
 					continue
 				}
 				nMode++
